@@ -40,12 +40,13 @@ func columnChan(col helper.ReportColumn) any {
 }
 
 type colSink struct {
-	name   string
-	role   string
-	vals   []string
-	nums   []float64
-	closed bool
-	bad    string
+	name    string
+	role    string
+	vals    []string
+	nums    []float64
+	closed  bool
+	bad     string
+	shifted bool // a recorded one-longer column, read in the alignment the finding describes
 }
 
 func collectColumn(col helper.ReportColumn) *colSink {
@@ -98,9 +99,11 @@ func reportKnown(strat, column string, dates, got int) string {
 	switch {
 	case strings.HasPrefix(strat, "trend.ApoStrategy") && column == "APO" && d == 1:
 		return "apo-report-column-one-longer"
-	case strings.HasPrefix(strat, "trend.AlligatorStrategy"):
+	// the recorded findings are exact patterns (the empty date axis, or average and annotation columns exactly one
+	// value longer than the date axis): any other disagreement on these reports is a violation of its own
+	case strings.HasPrefix(strat, "trend.AlligatorStrategy") && ((column == "<dates>" && dates == 0) || (column != "<dates>" && d == 1)):
 		return "alligator-report-columns-misaligned"
-	case strings.HasPrefix(strat, "trend.SmmaStrategy"):
+	case strings.HasPrefix(strat, "trend.SmmaStrategy") && ((column == "<dates>" && dates == 0) || (column != "<dates>" && d == 1)):
 		return "smma-report-columns-misaligned"
 	}
 	return ""
@@ -210,7 +213,7 @@ func c14Unit(c *core.Ctx, e *cat.Strat, cfg []float64, withCols bool) {
 			nd := len(dates.Vals)
 			off := n - nd
 			if nd > n || nd == 0 {
-				c.Fail(reportKnown(e.Name, "", nd, -1), fmt.Sprintf("%s report on %d snapshots: the date axis has %d rows", label, n, nd), cs)
+				c.Fail(reportKnown(e.Name, "<dates>", nd, -1), fmt.Sprintf("%s report on %d snapshots: the date axis has %d rows", label, n, nd), cs)
 				continue
 			}
 			badDate := false
@@ -224,7 +227,7 @@ func c14Unit(c *core.Ctx, e *cat.Strat, cfg []float64, withCols bool) {
 			if badDate {
 				continue
 			}
-			okCounts := true
+			okCounts, asIs := true, false
 			for _, col := range cols {
 				if col.bad != "" {
 					c.InternalError(col.bad)
@@ -232,8 +235,19 @@ func c14Unit(c *core.Ctx, e *cat.Strat, cfg []float64, withCols bool) {
 					continue
 				}
 				if len(col.vals) != nd {
+					key := reportKnown(e.Name, col.name, nd, len(col.vals))
+					c.Fail(key, fmt.Sprintf("%s report on %d snapshots: column %q (%s) supplies %d values for %d date rows", label, n, col.name, col.role, len(col.vals), nd), cs)
+					if key != "" && len(col.vals) == nd+1 {
+						// the recorded one-longer columns start one day early: the content of the report is still compared,
+						// in the alignment the recorded finding describes (value i+1 belongs to date row i)
+						col.vals = col.vals[1:]
+						if len(col.nums) == nd+1 {
+							col.nums = col.nums[1:]
+						}
+						asIs, col.shifted = true, true
+						continue
+					}
 					okCounts = false
-					c.Fail(reportKnown(e.Name, col.name, nd, len(col.vals)), fmt.Sprintf("%s report on %d snapshots: column %q (%s) supplies %d values for %d date rows", label, n, col.name, col.role, len(col.vals), nd), cs)
 				}
 			}
 			if okCounts && res.Deadlock {
@@ -248,15 +262,21 @@ func c14Unit(c *core.Ctx, e *cat.Strat, cfg []float64, withCols bool) {
 			var want map[string]ref.S
 			if withCols && e.Cols != nil {
 				bars := cat.MakeBars(rows)
-				setScale([][]float64{bars.H.V, bars.V.V})
+				setScale([][]float64{bars.H.V})
 				want = e.Cols(cfg, bars)
 			}
 			for _, col := range cols {
 				switch {
 				case col.role == "annotation":
+					// (strategies with the recorded extra action, C05: the one-longer annotation column, read one later,
+					// carries the actions read one later as well)
+					sh := 0
+					if col.shifted && len(norm) == n+1 {
+						sh = 1
+					}
 					for i, v := range col.vals {
-						if v != norm[off+i].Annotation() {
-							c.Fail("", fmt.Sprintf("%s report on %d snapshots: annotation of row %d (snapshot %d) is %q, the normalised action of that day is %q (actions %v)", label, n, i, off+i, v, norm[off+i].Annotation(), base.Actions), cs)
+						if v != norm[off+i+sh].Annotation() {
+							c.Fail("", fmt.Sprintf("%s report on %d snapshots: annotation of row %d (snapshot %d) is %q, the normalised action of that day is %q (actions %v)", label, n, i, off+i, v, norm[off+i+sh].Annotation(), base.Actions), cs)
 							break
 						}
 					}
@@ -307,6 +327,9 @@ func c14Unit(c *core.Ctx, e *cat.Strat, cfg []float64, withCols bool) {
 						}
 					}
 				}
+			}
+			if asIs {
+				continue // the lock-step rendering of columns of unequal length is what the recorded finding is about
 			}
 			// pass 2: the real template pulls the columns in lock-step
 			var buf bytes.Buffer
@@ -370,7 +393,7 @@ func c14Unit(c *core.Ctx, e *cat.Strat, cfg []float64, withCols bool) {
 func init() {
 	core.Register(&core.Check{
 		ID:     "C14",
-		Rule:   "for every strategy (40 base strategies x configuration box, decorators and compounds over them) x snapshot counts {w+1..w+4, 2w+2} x 3 bar series: (1) Report() is built on the real code, the date axis and every column's value channel are pulled out by reflection and each is drained by an independent reader under the controlled scheduler: every column must supply exactly one value per date and all pipelines must finish; Close, annotation (normalised action) and Outcome columns are compared with the real Compute/closing/outcome of each date, catalogued indicator columns with the documented reference at each date; (2) the report is rendered through the real template (text/template's channel range bridged into the scheduler) and every data.addRow line is parsed and compared, a receive from an exhausted column or a column left with unconsumed values is a violation; states = reports built, non-trivial = reports whose column counts were all correct",
+		Rule:   "for every strategy (40 base strategies x configuration box, decorators and compounds over them) x snapshot counts {w+1..w+4, 2w+2} x 3 bar series: (1) Report() is built on the real code, the date axis and every column's value channel are pulled out by reflection and each is drained by an independent reader under the controlled scheduler: every column must supply exactly one value per date and all pipelines must finish; Close, annotation (normalised action) and Outcome columns are compared with the real Compute/closing/outcome of each date, catalogued indicator columns with the documented reference at each date; (2) the report is rendered through the real template (text/template's channel range bridged into the scheduler) and every data.addRow line is parsed and compared, a receive from an exhausted column or a column left with unconsumed values is a violation; on the reports with a recorded one-longer column (exactly that pattern, anything else is a violation) the content is compared in the alignment the finding describes and the lock-step rendering is skipped; states = reports built, non-trivial = reports whose content was compared",
 		Assume: []string{"bar series are fixed irregular series of the four bars with positive range and volume", "indicator columns are compared only where the catalogue restates them (Cols) and the documented value is defined"},
 		Units: func(tier string) []core.Unit {
 			var us []core.Unit
